@@ -96,23 +96,66 @@ Theorem C03_manage_kill_sends_TERM_in_order : forall s p v, cur s = PManageKill 
 Proof. exact manage_kill_step. Qed.
 
 (* ---- a worker that cannot boot stops the whole server ---------------------------------------------------------- *)
+(* [raises s]: the tests of reap_workers let a boot failure through (Model/Arbiter.v: always on a tree without the
+   `not self._stopping` guard, before stop() was entered on a tree with it).  The first boot failure reaped decides: the
+   master halts with exactly that code, for EVERY continuation ls of the schedule - further boot failures (of either code)
+   and any other deaths reaped while halt() / stop() run change neither the status nor the fork count - and the only way
+   not to reach the orderly exit is the crash that needs a tree without the guard. *)
 Theorem C03_boot_failure_halts : forall s z,
-  Inv s -> master_gone (cur s) = false -> in_final_stop (cur s) = false ->
+  Inv s -> master_gone (cur s) = false -> in_final_stop (cur s) = false -> raises s = true ->
   In z (kids s) -> is_zombie z = true -> boot_code z = true -> c_pid z <> reexec s ->
   exists code, (code = worker_boot_error \/ code = app_load_error) /\
     halting code (cur (chld s)) /\ master_gone (cur (chld s)) = false /\
     forall ls, forks (run (chld s) ls) = forks s /\
-               forall x, cur (run (chld s) ls) = PExited x -> x = code.
+               (forall x, cur (run (chld s) ls) = PExited x -> x = code) /\
+               (cur (run (chld s) ls) = PCrashed -> reap_guards_halting = false).
 Proof. exact boot_failure_halts. Qed.
 Print Assumptions C03_boot_failure_halts.
 
-(* the only way the master dies outside an orderly exit: HaltServer raised by the handler inside halt()'s stop() *)
+(* the same on a tree with the guard: "the master has not begun to stop" is the whole precondition, and no exception
+   leaves run() *)
+Theorem C03_boot_failure_halts_guarded : reap_guards_halting = true -> forall s z,
+  Inv s -> master_gone (cur s) = false -> stopping s = false ->
+  In z (kids s) -> is_zombie z = true -> boot_code z = true -> c_pid z <> reexec s ->
+  exists code, (code = worker_boot_error \/ code = app_load_error) /\
+    halting code (cur (chld s)) /\ master_gone (cur (chld s)) = false /\
+    forall ls, forks (run (chld s) ls) = forks s /\
+               (forall x, cur (run (chld s) ls) = PExited x -> x = code) /\
+               cur (run (chld s) ls) <> PCrashed.
+Proof. exact boot_failure_halts_guarded. Qed.
+Print Assumptions C03_boot_failure_halts_guarded.
+
+(* a stop signal came first: TERM (and, with the guard, INT / QUIT) dequeued at the top of the loop ends in exit status 0
+   whatever is reaped afterwards - a boot failure reaped while the master stops is an ordinary death *)
+Theorem C03_stop_signal_exits_0 : forall s sg q,
+  cur s = PSigq -> sigq s = sg :: q ->
+  sg = SIGTERM \/ (reap_guards_halting = true /\ (sg = SIGINT \/ sg = SIGQUIT)) ->
+  halting 0 (cur (master s)) /\
+  forall ls, forks (run (master s) ls) = forks (master s) /\
+             (forall x, cur (run (master s) ls) = PExited x -> x = 0) /\
+             (cur (run (master s) ls) = PCrashed -> reap_guards_halting = false).
+Proof. exact stop_signal_exits_0. Qed.
+Print Assumptions C03_stop_signal_exits_0.
+
+(* the only way the master dies outside an orderly exit: HaltServer raised by the handler inside halt()'s stop() - which
+   takes a tree whose reap_workers does not test `self._stopping` *)
 Theorem C03_crash_only_by_halt_reentry : forall s l, cur s <> PCrashed -> cur (step s l) = PCrashed ->
-  l = Chld /\ in_final_stop (cur s) = true /\ reaps_boot_failure s.
+  l = Chld /\ in_final_stop (cur s) = true /\ reaps_boot_failure s /\ reap_guards_halting = false.
 Proof. exact crash_only_by_halt_reentry. Qed.
 Print Assumptions C03_crash_only_by_halt_reentry.
 
-(* ---- known refutations (findings on the current tree) ----------------------------------------------------------- *)
+(* D22, a boot failure reaped while halt() runs (second failing worker, or a failure during a TERM shutdown).  The reading
+   that describes the tree under test is selected by the constant gen_arbiter.py reads from reap_workers / stop():
+   repaired tree (true): for every schedule from every state no exception leaves run();
+   tree before the repair (false): the witness schedule ends in the crash (status 1, traceback, pid file kept). *)
+Theorem C03_boot_failure_during_halt :
+  if reap_guards_halting
+  then forall ls s, cur s <> PCrashed -> cur (run s ls) <> PCrashed
+  else cur (run (init 2 30 30 0 0) d22_schedule) = PCrashed /\ forks (run (init 2 30 30 0 0) d22_schedule) = 2.
+Proof. exact halt_reentry. Qed.
+Print Assumptions C03_boot_failure_during_halt.
+
+(* ---- known refutation (finding that remains on the current tree) ----------------------------------------------------------- *)
 (* D17: with timeout = 0 the pool never converges after SIGCHLD was handled between fork() and registration *)
 Theorem C03_converges_refuted :
   reachable d17_state /\ at_rest d17_state /\ no_upgrade d17_state /\ no_boot_failure_pending d17_state /\
@@ -127,12 +170,6 @@ Theorem C03_phantom_is_murdered : forall s p todo w,
   ~ In p (kpids (kids s)) -> timeout s * tps < mono s - w_hb w ->
   ~ In p (pids (workers (master (master s)))).
 Proof. exact phantom_is_murdered. Qed.
-
-(* D22: a second boot failure reaped while halt() runs: the master dies with an uncaught HaltServer (status 1) *)
-Theorem C03_boot_failure_exit_status_refuted :
-  cur (run (init 2 30 30 0 0) d22_schedule) = PCrashed /\ forks (run (init 2 30 30 0 0) d22_schedule) = 2.
-Proof. exact boot_failure_exit_status_refuted. Qed.
-Print Assumptions C03_boot_failure_exit_status_refuted.
 
 (* ---- non-vacuity ------------------------------------------------------------------------------------------------ *)
 (* a reachable state meeting every hypothesis of C03_converges that is not yet converged: three workers, then TTOU
@@ -175,7 +212,26 @@ Proof. vm_compute. reflexivity. Qed.
 (* boot failure: hypotheses of C03_boot_failure_halts hold in a reachable state, and the halt happens *)
 Definition bf_state : st := run (init 2 30 30 0 0) [Master; Master; Master; Master; Master; Master; Master; Master; Master; Exit 101 1024].
 Example C03_boot_failure_example :
-  master_gone (cur bf_state) = false /\ in_final_stop (cur bf_state) = false /\
+  master_gone (cur bf_state) = false /\ in_final_stop (cur bf_state) = false /\ stopping bf_state = false /\ raises bf_state = true /\
   existsb (fun z => is_zombie z && boot_code z && negb (c_pid z =? reexec bf_state)) (kids bf_state) = true /\
   cur (chld bf_state) = PKillAllSnap SIGTERM (KAWait (30 * tps) (AExit app_load_error)).
+Proof. vm_compute. repeat split; reflexivity. Qed.
+
+(* the witness of D22 on this tree: with the guard the second failure is reaped as an ordinary death and the master exits
+   with the status of the first; without it the master crashes *)
+Example C03_second_boot_failure_example :
+  let s := run (init 2 30 30 0 0) d22_schedule in
+  (forks s = 2) /\
+  (if reap_guards_halting
+   then kids s = [] /\ cur (run s (repeat Master 4)) = PExited worker_boot_error
+   else cur s = PCrashed).
+Proof. exact d22_outcome. Qed.
+
+(* TERM first, then a worker exits with code 3 while stop() waits: C03_stop_signal_exits_0's hypotheses hold in a reachable
+   state; the run ends with status 0 on a tree with the guard (and in the crash without) *)
+Definition term_state : st := run (init 2 30 1 0 0) [Master; Master; Master; Master; Master; Master; Master; Master; Master; Sig SIGTERM].
+Example C03_term_then_boot_failure_example :
+  cur term_state = PSigq /\ sigq term_state = [SIGTERM] /\
+  cur (run (master term_state) ([Master; Master; Master; Exit 100 768; Chld] ++ repeat Master 40)) =
+    (if reap_guards_halting then PExited 0 else PCrashed).
 Proof. vm_compute. repeat split; reflexivity. Qed.
